@@ -191,15 +191,22 @@ def judge_payload(rep, exp_parts, eci, allow_sa=False):
         if s.mode != 'byte' or a == b_:
             continue
         encs = set()
+        raw = set()
         for (x, y, enc) in bounds:
             if x < b_ and a < y:
                 encs.add(Mo.canon_codec(enc))
+                raw.add(enc)
         if not eci or micro:
             continue
         nonlatin = sorted(e for e in encs if e != 'iso8859-1')
         if not nonlatin:
             if s.eci not in (None, 3):
                 out.append(('eci-header', 'byte segment in ISO-8859-1 announced as ECI %r' % s.eci))
+            elif s.eci is not None and raw == {'iso-8859-1'}:
+                # the default encoding under its own name (given as 'iso-8859-1' or detected): "whose encoding is not ISO-8859-1"
+                # does not apply, no header.  (Other spellings of Latin-1 - 'latin1', 'ISO-8859-1' - get an ECI 3 header from the
+                # library, which is valid ISO and which the statement does not exclude; they stay tolerated.)
+                out.append(('eci-header', 'ECI header %r before a byte segment in the default encoding iso-8859-1' % s.eci))
         elif len(encs) > 1:
             out.append(('eci-header', 'one byte segment covers parts in different encodings %r' % sorted(encs)))
         else:
